@@ -41,12 +41,16 @@ Record lib := mkLib {
   l_dec_se  : bytes -> str;                 (* bytes.decode(utf8, surrogateescape) *)
   l_enc_se  : str -> res val;               (* str.encode(utf-8, surrogateescape) *)
   l_url_set : str -> res (bytes * str);     (* Request.url setter: (hostport written to an existing Host header, resulting .url) *)
-  l_ctfix   : bytes -> bytes                (* content-type value with charset=utf-8 forced (fallback of Message.set_text) *)
+  l_ctfix   : bytes -> bytes;               (* content-type value with charset=utf-8 forced (fallback of Message.set_text) *)
+  l_authority : bytes -> bytes;             (* Request.authority getter: data.authority decoded (idna, else utf8/surrogateescape) *)
+  l_parse_authority : bytes -> bytes * option N;     (* url.parse_authority(value, check=False) *)
+  l_unparse : bytes -> bytes -> N -> bytes -> str    (* url.unparse(scheme, host, port, path) *)
 }.
 
 (* ---------------------------------------------------------------- data *)
 Record request := mkRequest {
-  rq_method : bytes; rq_pretty_url : str; rq_version : bytes; rq_headers : list field; rq_raw : option bytes }.
+  rq_method : bytes; rq_scheme : bytes; rq_host : bytes; rq_port : N; rq_path : bytes; rq_authority : bytes;
+  rq_version : bytes; rq_headers : list field; rq_raw : option bytes }.
 Record response := mkResponse {
   rs_status : N; rs_version : bytes; rs_headers : list field; rs_raw : option bytes }.
 Inductive flow := HttpFlow (rq : request) (rs : option response) | OtherFlow.
@@ -224,6 +228,43 @@ Definition text_of (t : option val) : res str :=
   | Some (VB _) => EOther          (* json.dumps: bytes are not serialisable *)
   end.
 
+(* ---------------------------------------------------------------- http.Request.pretty_url (what the exporter writes as url) *)
+Definition M_CONNECT : bytes := [x43;x4f;x4e;x4e;x45;x43;x54].                (* first_line_format: method == CONNECT *)
+Definition HTTP20 : bytes := [x48;x54;x54;x50;x2f;x32;x2e;x30].              (* is_http2 *)
+Definition HTTP3 : bytes := [x48;x54;x54;x50;x2f;x33].                       (* is_http3 *)
+Definition S_HTTP : bytes := [x68;x74;x74;x70].
+Definition S_HTTPS : bytes := [x68;x74;x74;x70;x73].
+Definition STAR : bytes := [x2a].
+
+(* url.default_port *)
+Definition default_port (scheme : bytes) : option N :=
+  if bytes_eqb scheme S_HTTP then Some 80%N else if bytes_eqb scheme S_HTTPS then Some 443%N else None.
+
+(* Request.host_header: for HTTP/2 and HTTP/3 the authority, else (or if that is empty) the Host header *)
+Definition host_header (L : lib) (rq : request) : option bytes :=
+  if bytes_eqb (rq_version rq) HTTP20 || bytes_eqb (rq_version rq) HTTP3 then
+    let a := l_authority L (rq_authority rq) in
+    if nonempty a then Some a else getitem (rq_headers rq) K_HOST
+  else getitem (rq_headers rq) K_HOST.
+
+(* Request.pretty_url: the URL with the host AND PORT of the host header when there is one (a host header without port
+   means the default port of the scheme), the connection's host and port otherwise *)
+Definition pretty_url (L : lib) (rq : request) : str :=
+  if bytes_eqb (method_of rq) M_CONNECT then l_dec_se L (l_authority L (rq_authority rq))
+  else
+    let path := if bytes_eqb (rq_path rq) STAR then [] else rq_path rq in
+    match host_header L rq with
+    | Some (c :: hh) =>
+        let '(pretty_host, pretty_port) := l_parse_authority L (c :: hh) in
+        let pretty_port :=
+          match pretty_port with
+          | Some (Npos p) => Npos p
+          | _ => match default_port (rq_scheme rq) with Some d => d | None => 443%N end
+          end in
+        l_unparse L (rq_scheme rq) pretty_host pretty_port path
+    | _ => l_unparse L (rq_scheme rq) (rq_host rq) (rq_port rq) path
+    end.
+
 Definition flow_entry (L : lib) (rq : request) (rs : option response) : res entry :=
   resp <- match rs with
           | Some r =>
@@ -251,8 +292,8 @@ Definition flow_entry (L : lib) (rq : request) (rs : option response) : res entr
           end ;;
   let '(status, sver, sh, ctext, enc) := resp in
   let url := if bytes_eqb (method_of rq) connect_method
-             then connect_url_prefix ++ rq_pretty_url rq ++ connect_url_suffix
-             else rq_pretty_url rq in
+             then connect_url_prefix ++ pretty_url L rq ++ connect_url_suffix
+             else pretty_url L rq in
   post <- (if existsb (bytes_eqb (method_of rq)) post_methods then
              t <- get_text L (rq_headers rq) (rq_raw rq) ;;
              match t with
